@@ -42,7 +42,7 @@ int main(int argc, char **argv) {
   h_set_tuning((int)h_arg(argc, argv, 4, 1), (int)h_arg(argc, argv, 5, 1), (int)h_arg(argc, argv, 6, 1), (int)h_arg(argc, argv, 7, 1), (int)h_arg(argc, argv, 8, 1), 20);
   unsigned symcols = (unsigned)h_arg(argc, argv, 9, -1); int umode = (int)h_arg(argc, argv, 10, 0), fill2 = (int)h_arg(argc, argv, 11, 1); long lwork2 = h_arg(argc, argv, 12, 0), woff2 = h_arg(argc, argv, 13, 0); int ilu = (int)h_arg(argc, argv, 14, 0);
   symmat_t S; symmat_build_cols(&S, n, n, pat, "a", symcols);
-  real_t u = 1; if (umode == 1) { u = SYMREAL("u"); slusym_assume_cmp(2, (double)u, 0.0); slusym_assume_cmp(5, (double)u, 1.0); } else if (umode == 2) u = 0.5;
+  real_t u = 1; if (umode == 1) { u = SYMREAL("u"); slusym_assume_cmp(3, (double)u, 0.0); slusym_assume_cmp(5, (double)u, 1.0); } else if (umode == 2) u = 0.5; else if (umode == 3) u = 0;   /* documented range of DiagPivotThresh is [0,1] */
   run(&S, n, colperm, permidx, u, ilu, 4 * n + 20, 0, 0, &S1);
   run(&S, n, colperm, permidx, u, ilu, fill2, lwork2, woff2, &S2);
   slusym_note("info", (long)S1.info); slusym_note("expansions2", S2.expansions); slusym_note("expansions1", S1.expansions);
